@@ -553,6 +553,13 @@ class BreakStmt:
 
 
 @dataclass
+class ContinueStmt:
+    """A ``continue`` statement used to skip to the next loop iteration."""
+
+    pass
+
+
+@dataclass
 class CatchClause:
     """A ``catch`` clause attached to a :class:`TryStatement`."""
 
